@@ -99,6 +99,7 @@ type FuncContract struct {
 	Token        *Expr
 	Defines      *Expr
 	Measure      *Measure
+	MayPanic     string
 	CallsOnly    []string
 	HasCallsOnly bool
 }
@@ -130,11 +131,12 @@ type ContractFile struct {
 
 // PkgContract: package-level frame (C12 F1, C17 P4).
 type PkgContract struct {
-	ReadOnly     map[string]bool     // package-level variables that may be read (never written) after init
-	InitOnly     map[string]bool     // functions that run at init / configuration time only
-	FieldWriters map[string][]string // Type.field -> functions allowed to store to it
-	ReadOnlyUses map[string]bool     // callees a read-only global may be passed to
-	Line         int
+	ReadOnly      map[string]bool     // package-level variables that may be read (never written) after init
+	InitOnly      map[string]bool     // functions that run at init / configuration time only
+	FieldWriters  map[string][]string // Type.field -> functions allowed to store to it
+	ReadOnlyUses  map[string]bool     // callees a read-only global may be passed to
+	RecoverPoints []string            // entry points that must recover from panics (C14)
+	Line          int
 }
 
 func parseContractFile(path string) (*ContractFile, error) {
@@ -325,6 +327,11 @@ func (fc *FuncContract) addClause(word, rest string, ln int) error {
 			}
 		}
 		fc.Measure = me
+	case "maypanic":
+		fc.MayPanic = rest
+		if fc.MayPanic == "" {
+			fc.MayPanic = "unspecified"
+		}
 	case "noloops":
 		fc.NoLoops = true
 	case "callsonly":
@@ -719,6 +726,8 @@ func (pc *PkgContract) add(word, rest string) error {
 		for _, i := range items() {
 			pc.ReadOnlyUses[i] = true
 		}
+	case "recoverpoints":
+		pc.RecoverPoints = append(pc.RecoverPoints, items()...)
 	case "fieldwriters":
 		f := strings.Fields(rest)
 		if len(f) < 2 {
